@@ -27,6 +27,12 @@
                if (!value->_canonical) { build; lydict_insert_zc(ctx, ret, &value->_canonical); }  - the test is made
                without any lock, the store (store to str_p = match->value, dict.c:221) inside dict.lock
      hash      the LYB schema hash cache filled under lyb_hash_lock (src/lyb.c:100-111), read without it (lyb.c:66-79)
+     logopts   the logging options: ONE process-wide cell (ly_log_opts, src/log.c:40, read and written with
+               ly_log_options(), log.c:338-345) and a THREAD-LOCAL override (temp_ly_log_opts, log.c:41, set with
+               ly_temp_log_options(), log.c:347-355); log_vprintf (log.c:604-611) uses the override when there is
+               one, else the global cell. Library code that silences the logger for a trial operation uses the
+               override (e.g. lydxml_data_check_opaq, parser_xml.c:424-426); LogSaveSet/LogRestore model what the same
+               code would do with the global cell (prev = ly_log_options(0); ...; ly_log_options(prev))
      private   Priv f: a pure operation on thread-local data
    What is NOT modelled and cannot be: the C11 memory model (every step here is atomic and sequentially consistent),
    pthread mutex behaviour other than mutual exclusion, the heap. *)
@@ -82,7 +88,12 @@ Inductive step :=
 | HashFill                      (* lysc_module_dfs_full(mod, lyb_cache_node_hash_cb) *)
 | HashRead                      (* lyb_get_hash: node->hash[i] *)
 | Priv (f : N)
-| OpEnd.                        (* end of one API call (no effect; lets a schedule be given call by call) *)
+| OpEnd                         (* end of one API call (no effect; lets a schedule be given call by call) *)
+| LogSaveSet (v : N)            (* prev = ly_log_options(v): save the global options in a local, set them *)
+| LogRestore                    (* ly_log_options(prev) *)
+| LogTempSet (v : N)            (* ly_temp_log_options(&temp) with temp = v *)
+| LogTempClear                  (* ly_temp_log_options(NULL) (the previous override; overrides are not nested here) *)
+| LogObserve.                   (* log_vprintf learns the effective options: the override if set, else the global cell *)
 
 (* ---------------------------------------------------------------------------------------------------------------
    programs of the API calls
@@ -131,7 +142,9 @@ Inductive apiop :=
 | APrintLazy (v : nat) (s : bytes)
 | AFreeLazy (v : nat) (s : bytes)
 | ALybHash
-| APriv (f : N).
+| APriv (f : N)
+| ASilentTrial (f : N)          (* a trial operation with the logger silenced by the thread-local override (as coded) *)
+| ALogObserve.                  (* any logging call: which options does this thread's logger see *)
 
 Definition p_api (o : apiop) : list step :=
   match o with
@@ -144,7 +157,12 @@ Definition p_api (o : apiop) : list step :=
   | AFreeLazy v s => p_free_lazy v s
   | ALybHash => p_lyb_hash
   | APriv f => [Priv f; OpEnd]
+  | ASilentTrial f => [LogTempSet 0; LogObserve; Priv f; LogTempClear; OpEnd]
+  | ALogObserve => [LogObserve; OpEnd]
   end.
+
+(* the same trial with the process-wide cell instead of the override (what a careless implementation does) *)
+Definition p_silent_trial_global (f : N) : list step := [LogSaveSet 0; LogObserve; Priv f; LogRestore; OpEnd].
 Definition compile (ops : list apiop) : list step := concat (map p_api ops).
 
 (* ---------------------------------------------------------------------------------------------------------------
@@ -170,10 +188,17 @@ Record state := mkS {
   s_erecs : list erec;        (* the separately allocated records, in order of creation; never freed before the context *)
   s_canon : nat -> bool;      (* value->_canonical != NULL of the shared values *)
   s_hash : bool;              (* LYB hashes cached *)
-  s_thr : list tstate }.
+  s_thr : list tstate;
+  s_logopts : N;              (* ly_log_opts: the process-wide logging options *)
+  s_temp : nat -> option N;   (* temp_ly_log_opts of each thread (thread-local storage: only thread t touches s_temp t) *)
+  s_saved : nat -> N }.       (* the local variable prev of a thread between LogSaveSet and LogRestore *)
 
 Definition init (d0 : dictT) (progs : list (list step)) : state :=
-  mkS None None d0 0 8 1 [] (fun _ => false) false (map (fun p => mkT p RNone 0) progs).
+  mkS None None d0 0 8 1 [] (fun _ => false) false (map (fun p => mkT p RNone 0) progs) 3 (fun _ => None) (fun _ => 0).
+
+(* the same with other initial process-wide logging options (3 = LY_LOLOG | LY_LOSTORE) *)
+Definition init_log (g : N) (d0 : dictT) (progs : list (list step)) : state :=
+  mkS None None d0 0 8 1 [] (fun _ => false) false (map (fun p => mkT p RNone 0) progs) g (fun _ => None) (fun _ => 0).
 
 Definition holder (st : state) (m : lockid) : option tid :=
   match m with LDict => s_ldict st | LHash => s_lhash st end.
@@ -184,19 +209,32 @@ Definition holds (st : state) (t : tid) (m : lockid) : bool :=
 Definition set_holder (st : state) (m : lockid) (h : option tid) : state :=
   match m with
   | LDict => mkS h (s_lhash st) (s_dict st) (s_egen st) (s_esize st) (s_emode st) (s_erecs st) (s_canon st) (s_hash st) (s_thr st)
+         (s_logopts st) (s_temp st) (s_saved st)
   | LHash => mkS (s_ldict st) h (s_dict st) (s_egen st) (s_esize st) (s_emode st) (s_erecs st) (s_canon st) (s_hash st) (s_thr st)
+         (s_logopts st) (s_temp st) (s_saved st)
   end.
 
 Definition set_dict (st : state) (d : dictT) : state :=
-  mkS (s_ldict st) (s_lhash st) d (s_egen st) (s_esize st) (s_emode st) (s_erecs st) (s_canon st) (s_hash st) (s_thr st).
+  mkS (s_ldict st) (s_lhash st) d (s_egen st) (s_esize st) (s_emode st) (s_erecs st) (s_canon st) (s_hash st) (s_thr st)
+      (s_logopts st) (s_temp st) (s_saved st).
 Definition set_err (st : state) (g sz md : N) (recs : list erec) : state :=
-  mkS (s_ldict st) (s_lhash st) (s_dict st) g sz md recs (s_canon st) (s_hash st) (s_thr st).
+  mkS (s_ldict st) (s_lhash st) (s_dict st) g sz md recs (s_canon st) (s_hash st) (s_thr st)
+      (s_logopts st) (s_temp st) (s_saved st).
 Definition set_canon (st : state) (c : nat -> bool) : state :=
-  mkS (s_ldict st) (s_lhash st) (s_dict st) (s_egen st) (s_esize st) (s_emode st) (s_erecs st) c (s_hash st) (s_thr st).
+  mkS (s_ldict st) (s_lhash st) (s_dict st) (s_egen st) (s_esize st) (s_emode st) (s_erecs st) c (s_hash st) (s_thr st)
+      (s_logopts st) (s_temp st) (s_saved st).
 Definition set_hash (st : state) (b : bool) : state :=
-  mkS (s_ldict st) (s_lhash st) (s_dict st) (s_egen st) (s_esize st) (s_emode st) (s_erecs st) (s_canon st) b (s_thr st).
+  mkS (s_ldict st) (s_lhash st) (s_dict st) (s_egen st) (s_esize st) (s_emode st) (s_erecs st) (s_canon st) b (s_thr st)
+      (s_logopts st) (s_temp st) (s_saved st).
 Definition set_thr (st : state) (l : list tstate) : state :=
-  mkS (s_ldict st) (s_lhash st) (s_dict st) (s_egen st) (s_esize st) (s_emode st) (s_erecs st) (s_canon st) (s_hash st) l.
+  mkS (s_ldict st) (s_lhash st) (s_dict st) (s_egen st) (s_esize st) (s_emode st) (s_erecs st) (s_canon st) (s_hash st) l
+      (s_logopts st) (s_temp st) (s_saved st).
+
+Definition set_log (st : state) (g : N) (tmp : nat -> option N) (sv : nat -> N) : state :=
+  mkS (s_ldict st) (s_lhash st) (s_dict st) (s_egen st) (s_esize st) (s_emode st) (s_erecs st) (s_canon st) (s_hash st) (s_thr st)
+      g tmp sv.
+Definition oupd (c : nat -> option N) (t : nat) (v : option N) : nat -> option N := fun x => if Nat.eqb x t then v else c x.
+Definition nupd (c : nat -> N) (t : nat) (v : N) : nat -> N := fun x => if Nat.eqb x t then v else c x.
 
 Fixpoint lset {A} (l : list A) (i : nat) (a : A) : list A :=
   match l, i with
@@ -225,7 +263,8 @@ Inductive event :=
 | EvNullRec                                 (* log_store / ly_err_clean without a record *)
 | EvCanonUse (v : nat) (cached : bool)
 | EvHashRead (cached : bool)
-| EvOpEnd.
+| EvOpEnd
+| EvLogOpts (v : N).                        (* the logging options a logging call of this thread works with *)
 
 Definition priv_fun (f x : N) : N := (x * 16777619 + f) mod 4294967296.
 
@@ -314,6 +353,11 @@ Definition exec_step (st : state) (t : tid) (ts : tstate) (stp : step) (rest : l
   | HashRead => (same st, [EvHashRead (s_hash st)])
   | Priv f => (adv st (t_reg ts) (priv_fun f (t_local ts)) rest, [])
   | OpEnd => (same st, [EvOpEnd])
+  | LogSaveSet v => (same (set_log st v (s_temp st) (nupd (s_saved st) t (s_logopts st))), [])
+  | LogRestore => (same (set_log st (s_saved st t) (s_temp st) (s_saved st)), [])
+  | LogTempSet v => (same (set_log st (s_logopts st) (oupd (s_temp st) t (Some v)) (s_saved st)), [])
+  | LogTempClear => (same (set_log st (s_logopts st) (oupd (s_temp st) t None) (s_saved st)), [])
+  | LogObserve => (same st, [EvLogOpts (match s_temp st t with Some v => v | None => s_logopts st end)])
   end.
 
 Definition exec (st : state) (t : tid) : state * list event :=
@@ -471,6 +515,12 @@ Fixpoint disc (h : held) (p : list step) : bool :=
       end
   end.
 
+(* no step writes the process-wide logging options / no step touches the thread-local override *)
+Definition is_global_log (s : step) : bool := match s with LogSaveSet _ | LogRestore => true | _ => false end.
+Definition is_temp_log (s : step) : bool := match s with LogTempSet _ | LogTempClear => true | _ => false end.
+Definition global_log_free (p : list step) : bool := negb (existsb is_global_log p).
+Definition temp_log_free (p : list step) : bool := negb (existsb is_temp_log p).
+
 (* Priv steps are never inside a conditionally skipped block *)
 Definition is_priv (s : step) : bool := match s with Priv _ => true | _ => false end.
 Fixpoint privs_unskipped (p : list step) : bool :=
@@ -542,3 +592,12 @@ Definition w_nolock_progs : list (list step) :=
   [[DictRemFind w_canon_str; DictRemDec w_canon_str]; [DictRemFind w_canon_str; DictRemDec w_canon_str]].
 Definition w_nolock_fine : list tid := [0; 1; 0; 1]%nat.
 Definition w_one_ref : dictT := dupd (fun _ => 0) w_canon_str 1.
+
+(* logging options: thread 0 silences the logger for a trial through the process-wide cell, thread 1 logs meanwhile;
+   and two overlapping silenced windows (0 saves 3, 1 saves 0, 0 restores 3, 1 restores 0) *)
+Definition w_log_progs : list (list step) := [p_silent_trial_global 1; compile [ALogObserve]].
+Definition w_log_fine : list tid := [0; 1; 0; 0; 0; 0; 1]%nat.
+Definition w_log2_progs : list (list step) := [p_silent_trial_global 1; p_silent_trial_global 2].
+Definition w_log2_fine : list tid := [0; 1; 0; 0; 0; 0; 1; 1; 1; 1]%nat.
+(* the same with the thread-local override (as coded) *)
+Definition w_log_progs_temp : list (list step) := [compile [ASilentTrial 1]; compile [ALogObserve]].
